@@ -237,6 +237,7 @@ func (w *World) runPath(fn *ssa.Function, item workItem) (out pathOut) {
 	w.depth = 0
 	w.clockLast = nil
 	steps0 := w.steps
+	w.pathSteps0 = w.steps
 	w.resetSched()
 	if w.tt.Size() > 2_000_000 {
 		w.tt = NewTermTable()
@@ -305,6 +306,9 @@ func (ex *Explorer) merge(w *World, out pathOut) {
 	for _, s := range r.inconclusive {
 		if strings.HasPrefix(s, "BOUND-HIT") {
 			res.BoundHits++
+		}
+		if strings.HasPrefix(s, "BOUND-HIT: path executed") {
+			ex.stop = true // every further path through the same loop would burn the full step budget again
 		}
 		res.Inconclusive = appendUniq(res.Inconclusive, s)
 	}
